@@ -103,6 +103,10 @@ class GaussianPDF(measure.GaussianMeasure):
         self.mu = self.mu.at[indices].set(density.mu)
         self.ln_det_Sigma = self.ln_det_Sigma.at[indices].set(density.ln_det_Sigma)
         # self.ln_det_Lambda = self.ln_det_Lambda.at[indices].set(density.ln_det_Lambda)
+        if self.ln_det_Lambda is not None:
+            self.ln_det_Lambda = self.ln_det_Lambda.at[indices].set(
+                -density.ln_det_Sigma
+            )
         self.lnZ = self.lnZ.at[indices].set(density.lnZ)
         self.nu = self.nu.at[indices].set(density.nu)
         self.ln_beta = self.ln_beta.at[indices].set(density.ln_beta)
@@ -315,6 +319,10 @@ class GaussianDiagPDF(GaussianPDF, measure.GaussianDiagMeasure):
         self.mu = self.mu.at[indices].set(density.mu)
         self.ln_det_Sigma = self.ln_det_Sigma.at[indices].set(density.ln_det_Sigma)
         # self.ln_det_Lambda = self.ln_det_Lambda.at[indices].set(density.ln_det_Lambda)
+        if self.ln_det_Lambda is not None:
+            self.ln_det_Lambda = self.ln_det_Lambda.at[indices].set(
+                -density.ln_det_Sigma
+            )
         self.lnZ = self.lnZ.at[indices].set(density.lnZ)
         self.nu = self.nu.at[indices].set(density.nu)
         self.ln_beta = self.ln_beta.at[indices].set(density.ln_beta)
